@@ -100,6 +100,10 @@ def run_check(pid: str, tier: str, fn, seed: int = 0, replay: str | None = None)
         prog = Program()
         rep.analysed["modules"] = len(prog.modules)
         rep.analysed["classes"] = len(prog.classes)
+        if prog.renames:
+            # private helpers renamed relative to anchors.json, matched by scope + signature (new name -> anchor name)
+            rep.analysed["private_renames_normalised"] = dict(prog.renames)
+            print(f"note: private symbols renamed, analysed under their anchor names: {prog.renames}")
         fn(prog, rep, tier)
         rep.finish_counts()
     except AnalysisError as e:
